@@ -123,7 +123,7 @@ func vAssertNI(r *Raft, a *vAbsLog, tag string) {
 	vAssert(r.lastLogIndex == a.last(), tag+"-last-index-tracks-log")
 }
 
-//verif:check C19,C08 stubs=env,valuefile,abslog reach=success,rejected,truncated,config-adopted,end desc="onAppendEntriesRequest with configuration entries on both sides, under leader completeness: term, commit index, applied index never decrease; applied <= commit <= last; committed config index <= latest config index; the latest configuration is the newest configuration entry of the resulting log" bounds="follower log of 2..3 entries from index 1 (first is the bootstrap configuration, others update or 2-node configuration entries), request of 1..2 entries of either kind; all 64-bit terms"
+//verif:check C19,C08,C02 stubs=env,valuefile,abslog reach=success,rejected,truncated,config-adopted,end desc="onAppendEntriesRequest with configuration entries on both sides, under leader completeness: term, commit index, applied index never decrease; applied <= commit <= last; committed config index <= latest config index; the latest configuration is the newest configuration entry of the resulting log" bounds="follower log of 2..3 entries from index 1 (first is the bootstrap configuration, others update or 2-node configuration entries), request of 1..2 entries of either kind; all 64-bit terms"
 func VH_C19_append_configs() {
 	L := 2 + vChoice(2)
 	n := vCfgFollower(L)
